@@ -115,6 +115,19 @@ theorem decodeBlockHeader_encode (h : BlockHeader) (rest : Bytes)
   rw [unle_le_of_lt (by simpa using h1), unle_le_of_lt (by simpa using h2), unle_le_of_lt (by simpa using h3),
     unle_le_of_lt (by simpa using h4), unle_le_of_lt (by simpa using h5)]
 
+/-- what a reader sees of *any* header the writer emits: every field modulo its width -/
+theorem decodeBlockHeader_encode_mod (h : BlockHeader) (rest : Bytes) :
+    decodeBlockHeader (encodeBlockHeader h ++ rest)
+      = ⟨h.csize % 2 ^ 32, h.usize % 2 ^ 32, h.count % 2 ^ 16, h.crc % 2 ^ 32, h.flags % 2 ^ 16⟩ := by
+  have hm : encodeBlockHeader h
+      = encodeBlockHeader ⟨h.csize % 2 ^ 32, h.usize % 2 ^ 32, h.count % 2 ^ 16, h.crc % 2 ^ 32, h.flags % 2 ^ 16⟩ := by
+    have e4 : (2 : Nat) ^ 32 = 256 ^ 4 := by decide
+    have e2 : (2 : Nat) ^ 16 = 256 ^ 2 := by decide
+    simp only [encodeBlockHeader, e4, e2, le_mod]
+  rw [hm]
+  exact decodeBlockHeader_encode _ rest (Nat.mod_lt _ (by decide)) (Nat.mod_lt _ (by decide))
+    (Nat.mod_lt _ (by decide)) (Nat.mod_lt _ (by decide)) (Nat.mod_lt _ (by decide))
+
 /-- A block the format can carry: encodable entries, count fits 16 bits, sizes fit 32 bits. -/
 structure GoodBlock (es : List Entry) : Prop where
   enc : ∀ e ∈ es, Encodable e
@@ -132,12 +145,13 @@ def blockResOf (r : Except Err (List Entry)) (rest : Bytes) : BlockRes :=
   | .error e => .err e
   | .ok es => .ok es rest
 
-/-- `readNextBlock` on a block written by `flushLocked` from *any* entries (encodable or not):
-    header, checksum, decompression and length check all pass; what remains is the entry loop. -/
-theorem readNextBlock_encodeBlock_gen (cfg : Cfg) (codec : Codec) (crc : Checksum) (es : List Entry)
-    (rest : Bytes) (hcount : es.length < 2 ^ 16) (hsize : sizeSum es < 2 ^ 31 + 2 ^ 17) :
+/-- `readNextBlock` on a block written by `flushLocked` from *any* entries, however many: header,
+    checksum, decompression and length check all pass; what remains is the entry loop, run for
+    `len mod 65536` entries. -/
+theorem readNextBlock_encodeBlock_any (cfg : Cfg) (codec : Codec) (crc : Checksum) (es : List Entry)
+    (rest : Bytes) (hsize : sizeSum es < 2 ^ 31 + 2 ^ 17) :
     readNextBlock cfg codec.toDecoder crc (encodeBlock codec crc es ++ rest)
-      = blockResOf (finishParse cfg (encodeEntries es).length (parseEntries es.length (encodeEntries es))) rest := by
+      = blockResOf (finishParse cfg (encodeEntries es).length (parseEntries (es.length % 2 ^ 16) (encodeEntries es))) rest := by
   have hu : (encodeEntries es).length < 2 ^ 31 + 2 ^ 17 := by rw [encodeEntries_length]; exact hsize
   have hc : (codec.enc (encodeEntries es)).length < 2 ^ 32 := enc_length_lt codec _ hu
   have hcrc : (crc (codec.enc (encodeEntries es))).toNat < 2 ^ 32 := UInt32.toNat_lt _
@@ -154,22 +168,30 @@ theorem readNextBlock_encodeBlock_gen (cfg : Cfg) (codec : Codec) (crc : Checksu
   rw [e0]
   rw [if_neg (by simp [encodeBlockHeader_length])]
   try simp only
-  rw [decodeBlockHeader_encode _ _ hc (by simp; omega) hcount hcrc (by simp)]
+  rw [decodeBlockHeader_encode_mod]
   rw [drop_append_len _ _ 16 (encodeBlockHeader_length _)]
-  simp only [hcond, Bool.false_eq_true, if_false]
+  have m1 : c.length % 2 ^ 32 = c.length := Nat.mod_eq_of_lt hc
+  have m2 : (encodeEntries es).length % 2 ^ 32 = (encodeEntries es).length := Nat.mod_eq_of_lt (by omega)
+  have m3 : (crc c).toNat % 2 ^ 32 = (crc c).toNat := Nat.mod_eq_of_lt hcrc
+  simp only [m1, m2, m3, hcond, Bool.false_eq_true, if_false]
   rw [if_neg (by simp)]
   rw [take_append_len _ _ _ rfl, drop_append_len _ _ _ rfl]
   have hpb : parseBlock cfg codec.toDecoder crc
-      ⟨c.length, (encodeEntries es).length, es.length, (crc c).toNat, 0⟩ c
-        = finishParse cfg (encodeEntries es).length (parseEntries es.length (encodeEntries es)) := by
+      ⟨c.length, (encodeEntries es).length, es.length % 2 ^ 16, (crc c).toNat, 0 % 2 ^ 16⟩ c
+        = finishParse cfg (encodeEntries es).length (parseEntries (es.length % 2 ^ 16) (encodeEntries es)) := by
     unfold parseBlock
     have hnd : (decide (32 * c.length + 64 < codec.toDecoder.declLen c)) = false := by
       simp only [decide_eq_false_iff_not]; omega
     simp only [bne_self_eq_false, Bool.and_false, Bool.false_eq_true, if_false, hdec, hnd]
-    have : (encodeEntries es).length % 2 ^ 32 = (encodeEntries es).length := Nat.mod_eq_of_lt (by omega)
-    simp only [this, bne_self_eq_false, Bool.and_false, Bool.false_eq_true, if_false]
+    simp only [m2, bne_self_eq_false, Bool.and_false, Bool.false_eq_true, if_false]
   rw [hpb]
-  cases finishParse cfg (encodeEntries es).length (parseEntries es.length (encodeEntries es)) <;> rfl
+  cases finishParse cfg (encodeEntries es).length (parseEntries (es.length % 2 ^ 16) (encodeEntries es)) <;> rfl
+
+theorem readNextBlock_encodeBlock_gen (cfg : Cfg) (codec : Codec) (crc : Checksum) (es : List Entry)
+    (rest : Bytes) (hcount : es.length < 2 ^ 16) (hsize : sizeSum es < 2 ^ 31 + 2 ^ 17) :
+    readNextBlock cfg codec.toDecoder crc (encodeBlock codec crc es ++ rest)
+      = blockResOf (finishParse cfg (encodeEntries es).length (parseEntries es.length (encodeEntries es))) rest := by
+  rw [readNextBlock_encodeBlock_any cfg codec crc es rest hsize, Nat.mod_eq_of_lt hcount]
 
 /-- `readNextBlock` on a block written by `flushLocked`, whatever follows it
     (for every lawful codec, every checksum, every value of the code facts). -/
